@@ -11,3 +11,4 @@ import SamVerif.Props.C14
 import SamVerif.Props.C15
 import SamVerif.Props.C06
 import SamVerif.Props.C05
+import SamVerif.Props.C13
